@@ -156,7 +156,11 @@ func stress03(o *vcoq.Out, r *vcoq.Rand, base int64, histories int) {
 			}()
 		}
 		close(start)
-		wg.Wait()
+		if err := bounded("a free-running program", wg.Wait); err != nil {
+			o.Directs = append(o.Directs, vcoq.Direct{What: err.Error(), Class: "gate-timeout", Replay: map[string]any{"program": jsProg(sc), "writer_goroutines": groups}})
+			w.cancel()
+			return // its goroutines stay blocked: no further programs
+		}
 		rr := &runResult{results: results}
 		// PullID returns at once and opens its inner Pull on a goroutine of its own: wait until that has
 		// happened (every goroutine at rest), or the subscription would begin after the final read
